@@ -235,6 +235,9 @@ def group_variants(case, seed, n):
                     'split': rng.pick(['same', 'allfile', 'reprompt', 'reprompt']),
                     'split_seed': rng.randrange(1 << 32),
                     'form_order': rng.randrange(1 << 32) if rng.chance(0.5) else None})
+        if rng.chance(0.2):
+            # a return of another tax year was solved in this process just before (its own year's forms, its own inputs)
+            out[-1]['after_year'] = rng.pick([y for y in shipped.YEARS if y != case['persona']['year']])
     return out
 
 
@@ -260,6 +263,12 @@ def evaluate_group(case, acc=None):
         req = list(case['persona']['forms'])
         if v['form_order'] is not None and len(req) > 1:
             core.Rng(core.h64('fo', v['form_order'])).shuffle(req)
+        if v.get('after_year') is not None:
+            core.reset_code_state()        # as in a fresh process in which the other year's return comes first
+            try:
+                shipped.execute(shipped.make_persona(v['after_year'], core.h64('after_year', v['split_seed']), 'single_w2'), prompt=True)
+            except (core.RunTimeout, core.BudgetExceeded):
+                pass
         runs.append((v, c05.guarded(lambda: execute(case, file_names=names, sched=tuple(v['sched']), prompt=prompt,
                                                     refuse_at=refuse, layout=v['layout'], requested=req), base_run.supplied)))
     for tag, run in runs:
